@@ -100,6 +100,14 @@ def run(prop, tier, seed, make_cases, theorem_targets=(), note="", extra_cov=Non
         for f, e in errs:
             corr_broken.append("coqc failed on %s: %s" % (os.path.basename(f), e[-300:]))
         nviol = 0
+        nframe = 0
+        for c, r in zip(cases, real):
+            if r and r.get("frames") and nframe < 3:
+                nframe += 1
+                f0 = r["frames"][0]
+                chk.violation("frame_%d" % nframe, {"kind": "history", "source": c["src"], "calls": [list(o) for o in c["hist"][: f0["after_call"] + 1]],
+                                                    "family": c["family"], "what": "a call on module %d changed the printed program of module %d, which the call does not concern"
+                                                    % (f0["call"][0], f0["changed_module"]), "printed_before": f0["before"], "printed_after": f0["after"]})
         for c, code, r in zip(cases, codes, real):
             fam[c["family"].split(":")[0]] += 1
             for o in c["hist"]:
